@@ -120,10 +120,11 @@ type modRun struct {
 	hostv    *starlark.List
 	skipPrint bool
 	stats    *counters
+	knownIDs map[any]bool
 }
 
 type counters struct {
-	attempts, mutatorAttempts, reads, twinRuns, panics, unreachableMutations int64
+	attempts, mutatorAttempts, reads, twinRuns, panics, unreachableMutations, derivedValues, derivedMutations int64
 	opsByKind                                                        map[string]int64
 }
 
@@ -496,7 +497,7 @@ func (r *modRun) checkNode(i int, only string, second bool) *finding {
 			mut = mutableKind(r.g.Nodes[kid].Kind) && frozen
 			// (mutating an unreachable value may succeed; only the frozen part is judged)
 		}
-		_, err := op.apply(r, r.th, v)
+		res, err := op.apply(r, r.th, v)
 		after := r.frozenSer()
 		r.stats.attempts++
 		r.stats.opsByKind[op.Kind]++
@@ -510,6 +511,11 @@ func (r *modRun) checkNode(i int, only string, second bool) *finding {
 			r.stats.mutatorAttempts++
 		} else {
 			r.stats.reads++
+		}
+		if err == nil && res != nil {
+			if what := r.pokeDerived(res, before); what != "" {
+				return &finding{"derived-value-aliases-frozen-state", i, op.Desc, fmt.Sprintf("%s on node %d (%s, %s) returned a new value; %s", op.Desc, i, nd.Kind, reachWord(r.reach[i]), what)}
+			}
 		}
 		if frozen && mut && op.HasErr && (err == nil || mutlib.IsPanic(err)) {
 			return &finding{"mutator-succeeds-on-frozen", i, op.Desc, fmt.Sprintf("%s changes a mutable value of identical content but on frozen node %d (%s) it returned err=%v", op.Desc, i, nd.Kind, err)}
@@ -526,6 +532,138 @@ func (r *modRun) checkNode(i int, only string, second bool) *finding {
 		}
 	}
 	return nil
+}
+
+// known returns the identities of every container reachable, through the Go
+// API, from the module globals or from any stashed node (frozen or not).
+// Anything else an operation returns is a value created by that operation.
+func (r *modRun) known() map[any]bool {
+	if r.knownIDs == nil {
+		roots := []starlark.Value{r.globals["g"]}
+		roots = append(roots, r.nodes...)
+		for _, v := range r.pre {
+			roots = append(roots, v)
+		}
+		r.knownIDs = apiReachable(roots...)
+	}
+	return r.knownIDs
+}
+
+var sentinel = starlark.String("c04-sentinel")
+
+// pokeDerived mutates, through the Go API, every container inside res that
+// the operation created (slices, copies, unions, sorted lists, items() ...)
+// and reports if that changes the frozen graph: a value derived from a frozen
+// value must not share storage with it.
+func (r *modRun) pokeDerived(res starlark.Value, before string) (what string) {
+	known := r.known()
+	visited := map[any]bool{}
+	ser := func() (s string) {
+		defer func() {
+			if e := recover(); e != nil {
+				s = fmt.Sprintf("<serialising the frozen graph panicked: %v>", e)
+			}
+		}()
+		return r.frozenSer()
+	}
+	check := func(desc string) bool {
+		r.stats.derivedMutations++
+		if now := ser(); now != before {
+			what = fmt.Sprintf("%s on that new value changed the state reachable from the module globals:\n before %s\n after  %s", desc, before, now)
+			return false
+		}
+		return true
+	}
+	var walk func(v starlark.Value, depth int) bool
+	walk = func(v starlark.Value, depth int) bool {
+		if v == nil || depth > 6 {
+			return true
+		}
+		switch x := v.(type) {
+		case *starlark.List:
+			if known[x] || visited[x] {
+				return true
+			}
+			visited[x] = true
+			for i := 0; i < x.Len(); i++ {
+				if !walk(x.Index(i), depth+1) {
+					return false
+				}
+			}
+			r.stats.derivedValues++
+			for i := 0; i < x.Len(); i++ {
+				if x.SetIndex(i, sentinel) == nil && !check(fmt.Sprintf("SetIndex(%d)", i)) {
+					return false
+				}
+			}
+			if x.Append(sentinel) == nil && !check("Append") {
+				return false
+			}
+			if x.Clear() == nil && !check("Clear") {
+				return false
+			}
+		case *starlark.Dict:
+			if known[x] || visited[x] {
+				return true
+			}
+			visited[x] = true
+			items := x.Items()
+			for _, it := range items {
+				if !walk(it[0], depth+1) || !walk(it[1], depth+1) {
+					return false
+				}
+			}
+			r.stats.derivedValues++
+			for _, it := range items {
+				if x.SetKey(it[0], sentinel) == nil && !check("SetKey(existing key)") {
+					return false
+				}
+			}
+			if x.SetKey(sentinel, sentinel) == nil && !check("SetKey(new key)") {
+				return false
+			}
+			if len(items) > 0 {
+				if _, _, err := x.Delete(items[0][0]); err == nil && !check("Delete") {
+					return false
+				}
+			}
+			if x.Clear() == nil && !check("Clear") {
+				return false
+			}
+		case *starlark.Set:
+			if known[x] || visited[x] {
+				return true
+			}
+			visited[x] = true
+			elems := mutlib.SetKeys(x)
+			for _, e := range elems {
+				if !walk(e, depth+1) {
+					return false
+				}
+			}
+			r.stats.derivedValues++
+			if x.Insert(sentinel) == nil && !check("Insert") {
+				return false
+			}
+			if len(elems) > 0 {
+				if _, err := x.Delete(elems[0]); err == nil && !check("Delete") {
+					return false
+				}
+			}
+			if x.Clear() == nil && !check("Clear") {
+				return false
+			}
+		case starlark.Tuple:
+			for _, e := range x {
+				if !walk(e, depth+1) {
+					return false
+				}
+			}
+		}
+		return true
+	}
+	walk(res, 0)
+	return what
 }
 
 func reachWord(b bool) string {
